@@ -335,9 +335,35 @@ func ruleLightDetector(c *Ctx) {
 							nSet++
 							pred := p.Block().Preds[i]
 							found := false
+							nilVerdict := Guard{Name: "the verdict received from the witness is nil", Match: func(w *World, f *ssa.Function, a Atom) bool {
+								return a.Kind == "nil" && strings.HasPrefix(w.expr(a.V), "<-")
+							}}
 							for _, a := range dominatingAtoms(pred) {
-								if a.Kind == "nil" && strings.HasPrefix(w.expr(a.V), "<-") {
+								if nilVerdict.Match(w, f, a) {
 									found = true
+								}
+								// `matched, … := c.handle(<-errc, …); if matched {flag = true}`: the helper's result is
+								// true only where it saw a nil verdict
+								if a.Kind == "true" {
+									if ex, isEx := a.V.(*ssa.Extract); isEx {
+										if call, isCall := ex.Tuple.(*ssa.Call); isCall {
+											if h := staticCallee(call); h != nil && h.Blocks != nil && isNewFunc(h) {
+												all := true
+												for _, r := range returnsOf(h) {
+													ret := r.(*ssa.Return)
+													if b, isC := boolConst(ret.Results[ex.Index]); isC && !b {
+														continue
+													}
+													if ok, _ := c.ge().guardedLocal(h, ret, nilVerdict, 2); !ok {
+														all = false
+													}
+												}
+												if all {
+													found = true
+												}
+											}
+										}
+									}
 								}
 							}
 							if !found {
